@@ -312,6 +312,23 @@ def fama(pm: ProgramModel, ctx: Ctx, mb: ModelBuilder) -> None:
         .replace('\t<excludes name="C2" feature="Coin" excludes="Advanced"/>\n', "")
     r = read(pm, "XMLReader", doc.encode("utf8"))
     compare(ctx, "C09-KEYFLOW", "fama-cardinalities", where, r, refc, "FaMa XML cardinalities [2..3], [0..1]", sem=False)
+    # every set relation the format can state, bounds exactly as written, the cardinality element before and after the
+    # children ([1..k] with k below the number of children looks like an or-group until the last child is counted)
+    from ..card import domain_wf
+    nset = 0
+    for d in [x for x in domain_wf(ctx.tier) if 2 <= x.n <= 4 and x.max != -1 and x.max <= 4]:
+        for card_after in (False, True):
+            rootd = mb.feature("R")
+            hostd = mb.feature("H")
+            mb.relation(rootd, [hostd], 1, 1)
+            mb.relation(hostd, [mb.feature(f"k{i}") for i in range(d.n)], d.min, d.max)
+            mb.relation(hostd, [mb.feature("solo")], 0, 1)
+            refd = mb.model(rootd, [])
+            rr = read(pm, "XMLReader", fama_doc(refd, card_after=card_after, ctc_lines=[]).encode("utf8"))
+            nset += 1
+            compare(ctx, "C09-KEYFLOW", f"fama-set-relation:{d}:{'cardinality-last' if card_after else 'cardinality-first'}",
+                    where, rr, refd, f"FaMa XML set relation {d}", sem=False)
+    ctx.floor("C09-KEYFLOW", "fama set relations", nset, 20)
     # a constraint element before the feature element
     r = read(pm, "XMLReader", fama_doc(ref, ctc_first=True).encode("utf8"))
     if r["raise"] and is_library_error(pm, r["raise"][0]):
